@@ -3290,7 +3290,8 @@ iwrc iwkv_exclusive_unlock(struct iwkv *iwkv) {
 iwrc iwkv_close(struct iwkv **iwkvp) {
   ENSURE_OPEN((*iwkvp));
   struct iwkv *iwkv = *iwkvp;
-  if (!__sync_bool_compare_and_swap(&iwkv->open, 1, 0)) {
+  bool was_open = true;
+  if (!atomic_compare_exchange_strong(&iwkv->open, &was_open, false)) {
     return IW_ERROR_INVALID_STATE;
   }
   iwal_shutdown(iwkv);
